@@ -800,6 +800,7 @@ where
                     nid,
                     inbox,
                     streams,
+                    link,
                     ..
                 }) = self.peers.get_mut(&id)
                 {
@@ -821,6 +822,12 @@ where
                                 ..
                             })) => {
                                 log::debug!(target: "wire", "Received `open` command for stream {stream} from {nid}");
+                                // The remote can only open streams it initiates. Stream ids
+                                // with our initiator bit are reserved for the streams we open.
+                                if stream.link() == *link {
+                                    log::warn!(target: "wire", "Peer attempted to open stream {stream} which is reserved for us");
+                                    continue;
+                                }
                                 metrics.streams_opened += 1;
                                 metrics.received_fetch_requests += 1;
                                 let reader_limit = self.service.config().limits.fetch_pack_receive;
